@@ -98,7 +98,7 @@ GStep ==
         \/ StreamPoll /\ UNCHANGED held
         \/ (Gate(3) \/ (held = "stuck" /\ Len(toBack) = MaxQueue)) /\ StreamLeave /\ UNCHANGED held     \* the lost-drop corner: try_send into a full queue
         \/ Gate(FaultGate) /\ FaultNext /\ UNCHANGED held
-        \/ Gate(AbandonGate) /\ AppAbandon /\ UNCHANGED held
+        \/ Gate(AbandonGate) /\ (\E h \in Ops : fe[h].st # "idle" /\ FeAbandon(h)) /\ UNCHANGED held
         \/ rt = "run" /\ (\E m \in OneText : PeerSend(m)) /\ UNCHANGED held
   \/ /\ held = "no" /\ st = "run" /\ Gate(HoldGate) /\ held' = "armed" /\ UNCHANGED vars
   \/ /\ held # "no" /\ (Gate(8) \/ (held = "stuck" /\ Len(toBack) = MaxQueue /\ Gate(2))) /\ held' = "no" /\ UNCHANGED vars
